@@ -17,6 +17,10 @@ def run(ctx, rep):
     # a literal character counts once whether it is a Literal or (under ignore(case)) a class: ignore(case) leaves the default priority alone
     cg.rule_complexity(rep, crate)
     cg.rule_ignore_case_writers(rep, crate)
+    # a literal is compared with the source's own bytes in both runtimes (read(offset) is the byte-level sub-slice at offset)
+    from props import rt
+    rt.rule_read_bounds(rep, ctx.mir('ws-default')['logos'], 'ws-default')
+    rt.rule_read_forbid(rep, ctx.mir('logos-forbid')['logos'], 'logos-forbid')
     # a str subpattern spliced into a byte pattern keeps its own Unicode mode, on which the kind of case folding depends
     cg.rule_subpatterns(rep, crate)
     if ctx.tier == 'thorough':
